@@ -34,7 +34,10 @@ OnEndGate(e, ps) == IF ps = <<>> THEN "" ELSE G(e, "onend:" \o Head(ps))
 (* whose methods wait for the scheduler.  In the "locked" shapes the process parked there holds span.mu, so  *)
 (* a released process that needs the lock really blocks (Blocked) until the holder is released.             *)
 LockWait == {"lock", "relock", "snaplock", "prelock", "precheck"}
-Blocked(y) == mu \notin {"none", y} /\ pc[y] \in LockWait
+Blocked(y) == \/ mu \notin {"none", y} /\ pc[y] \in LockWait
+              \/ prov.mu \notin {"none", y} /\ pc[y] \in {"glock", "slock", "ulock", "reent"}
+              \/ prov.mu = y /\ pc[y] = "reent"                                   \* blocked on itself for good
+              \/ pc[y] = "swait" /\ \E g \in WaitFor : pc[g] # "done"
 Allowed(x) == \A y \in Procs : (last[y] = "" /\ pc[y] # "done" /\ ~Blocked(y)) => y = x
 
 SimNext ==
@@ -70,8 +73,19 @@ SimNext ==
         \/ (RCall(r) \/ RLock(r) \/ RRead(r) \/ RUnlock(r)) /\ Rel(r, "")
         \/ RRet(r) /\ Rel(r, G(r, "ret"))
   \/ \E g \in RegSet : Allowed(g) /\
-        \/ (GCall(g) \/ GStore(g)) /\ Rel(g, "")
+        \/ (GCall(g) \/ GLock(g) \/ GCheck(g) \/ GStore(g) \/ GUnlock(g)) /\ Rel(g, "")
         \/ GRet(g) /\ Rel(g, G(g, "ret"))
+  \* the processors' Shutdown is user code: the natural gate x@proc.Shutdown (entered holding p.mu)
+  \/ \E t \in Stoppers : Allowed(t) /\
+        \/ (SCall(t) \/ SLock(t)) /\ Rel(t, "")
+        \/ SSet(t) /\ Rel(t, IF pc'[t] = "sproc" THEN G(t, "proc.Shutdown") ELSE "")
+        \/ (SProc(t) \/ Reent(t) \/ SWait(t) \/ SClear(t) \/ SUnlock(t)) /\ Rel(t, "")
+        \/ SRet(t) /\ Rel(t, G(t, "ret"))
+  \/ \E u \in Unregs : Allowed(u) /\
+        \/ (UCall(u) \/ ULock(u) \/ URemove(u)) /\ Rel(u, "")
+        \/ (UCheck(u) \/ UUnlock(u)) /\ Rel(u, IF pc'[u] = "ushut" THEN G(u, "proc.Shutdown") ELSE "")
+        \/ (UShut(u) \/ Reent(u)) /\ Rel(u, "")
+        \/ URet(u) /\ Rel(u, G(u, "ret"))
 
 Finish == /\ ~fin /\ AllDone
           /\ PrintT("BEHAVIOUR " \o ToJson([script |-> hist, bad |-> mon.bad, overlap |-> winOverlap,
